@@ -1357,11 +1357,15 @@ func (m *mergeQuery) Select(t iterator) NodeNavigator {
 			}
 			m.Child.Evaluate(t)
 			root = root.Copy()
+			// the child is evaluated with root as context node; the caller's
+			// context is put back afterwards.
+			saved := t.Current().Copy()
 			t.Current().MoveTo(root)
 			var list []NodeNavigator
 			for node := m.Child.Select(t); node != nil; node = m.Child.Select(t) {
 				list = append(list, node.Copy())
 			}
+			t.Current().MoveTo(saved)
 			i := 0
 			m.iterator = func() NodeNavigator {
 				if i >= len(list) {
